@@ -888,3 +888,50 @@ def replay(ctx, path):
     bad = (got != want) if want not in ("an error code", "no sanitizer report") else got.startswith("0") or got.startswith("CRASH")
     print("property %s on the current tree" % ("VIOLATED" if bad else "holds"))
     return 1 if bad else 0
+
+
+# ------------------------------------------------------------------ C19: a quick-sized stream for the configuration replay
+def c19_stream():
+    """(harness, driver, fn, uses_bash) for props/C19.py: fn(ctx, exe, w) -> op lines.  The stream is the staged
+    quick generator thinned to about 450 ops (the Lean affine arithmetic is slow); later stages are built from the
+    outputs of `exe` (the reference build).  All ops are octet-level: nothing depends on the machine-word size `w`."""
+
+    class _Shim:
+        def __init__(self, ctx):
+            self.rng, self.tier = ctx.rng, "quick"
+
+    def fn(ctx, exe, w):
+        def run_c(lines):
+            out, err, rc = ctx.run_lines(exe, lines)
+            if rc != 0 or len(out) != len(lines):
+                raise RuntimeError("c02 harness failed while building the C19 stream: " + err[-300:])
+            return out
+
+        g = Gen(_Shim(ctx), curves(), run_c)
+        rng = ctx.rng
+
+        def thin(ops, meta, fr):
+            seen, ko, km = set(), [], []
+            for o, m in zip(ops, meta):
+                t = o.split()
+                ci = int(t[1]) if len(t) > 1 and t[1] in ("0", "1", "2") else 0
+                key = (t[0], ci, m.get("lab", m.get("kind")))
+                if key not in seen or rng.random() < fr[ci]:
+                    ko.append(o)
+                    km.append(m)
+                seen.add(key)
+            return ko, km
+
+        stream = corpus_lines()
+        oo = operable_ops(ctx, g.cvs)
+        stream += [oo[i] for i in sorted(rng.sample(range(len(oo)), min(30, len(oo))))]
+        o1, m1 = thin(*g.stage1(), fr=(0.25, 0.08, 0.06))
+        c1 = run_c(o1)
+        o2, m2 = thin(*g.stage2(o1, m1, c1), fr=(0.25, 0.10, 0.08))
+        c2 = run_c(o2)
+        o3, m3 = thin(*g.stage3(o2, m2, c2), fr=(0.5, 0.3, 0.3))
+        c3 = run_c(o3)
+        o4, m4 = thin(*g.stage4(o3, m3, c3), fr=(0.25, 0.10, 0.08))
+        return stream + o1 + o2 + o3 + o4
+
+    return ("harness/c02.c", "drv_c02", fn, False)
